@@ -51,4 +51,18 @@ theorem UQ_Ry_deg_delegates (th : R) : Gen.UQ_Ry_deg P th = Gen.UQ_Ry P (th * P.
 theorem UQ_Rz_deg_delegates (th : R) : Gen.UQ_Rz_deg P th = Gen.UQ_Rz P (th * P.pi / 180) := by deleg Gen.UQ_Rz_deg Gen.UQ_Rz
 theorem SO3_EulerVec_delegates (v : Vec 3 R) : Gen.SO3_EulerVec P v = Gen.trexp_3 P v := by deleg Gen.SO3_EulerVec Gen.trexp_3
 
+theorem Q_pow_m2_delegates (q : Vec 4 R) : Gen.Q_pow_m2 P q = Gen.qpow_m2 P q := by deleg Gen.Q_pow_m2 Gen.qpow_m2
+theorem Q_pow_m1_delegates (q : Vec 4 R) : Gen.Q_pow_m1 P q = Gen.qpow_m1 P q := by deleg Gen.Q_pow_m1 Gen.qpow_m1
+theorem Q_pow_0_delegates (q : Vec 4 R) : Gen.Q_pow_0 P q = Gen.qpow_0 P q := by deleg Gen.Q_pow_0 Gen.qpow_0
+theorem Q_pow_1_delegates (q : Vec 4 R) : Gen.Q_pow_1 P q = Gen.qpow_1 P q := by deleg Gen.Q_pow_1 Gen.qpow_1
+theorem Q_pow_3_delegates (q : Vec 4 R) : Gen.Q_pow_3 P q = Gen.qpow_3 P q := by deleg Gen.Q_pow_3 Gen.qpow_3
+theorem Q_sub_value (q p : Vec 4 R) : Gen.Q_sub P q p = .ok (fun i => q i - p i) := by unfold Gen.Q_sub; congr 1; ext_lit <;> simp
+theorem Q_mul_scalar_value (q : Vec 4 R) (k : R) : Gen.Q_mul_scalar P q k = .ok (fun i => q i * k) := by unfold Gen.Q_mul_scalar; congr 1; ext_lit <;> simp <;> ring
+theorem Q_rmul_scalar_value (q : Vec 4 R) (k : R) : Gen.Q_rmul_scalar P q k = .ok (fun i => q i * k) := by unfold Gen.Q_rmul_scalar; congr 1; ext_lit <;> simp <;> ring
+theorem Q_add_value (q p : Vec 4 R) : Gen.Q_add P q p = .ok (fun i => q i + p i) := by unfold Gen.Q_add; congr 1; ext_lit <;> simp
+theorem SE3_EulerVec_delegates (v : Vec 3 R) : Gen.SE3_EulerVec P v = (match Gen.trexp_3 P v with | .ok M => .ok (rt3 M (v3 0 0 0)) | .raised e => .raised e | .none => .none) := by
+  unfold Gen.SE3_EulerVec Gen.trexp_3; simp only []; split_ifs <;> first | rfl | (congr 1; ext_lit <;> simp [rt3])
+theorem UQ_SE3_delegates (q : Vec 4 R) : Gen.UQ_SE3 P q = (match Gen.q2r P q with | .ok M => .ok (rt3 M (v3 0 0 0)) | .raised e => .raised e | .none => .none) := by
+  unfold Gen.UQ_SE3 Gen.q2r; simp only []; first | rfl | (congr 1; ext_lit <;> simp [rt3])
+
 end SmVerif.Props.Delegation
